@@ -519,6 +519,10 @@ func checkC13(w *World, r *Report) {
 	rangeErrorRule(w, r, e, "C13.range-error")
 	applyArgsRule(w, r, e, "C13.apply-args")
 	nilBranchRule(w, r, e, "C13.nil-branch")
+	countArithRule(w, r, e, "C13.count-arith")
+	loopErrorRule(w, r, "C13.loop-errors", func(fn *ssa.Function) bool {
+		return strings.HasPrefix(fnPkgPath(fn), modPath+"/lib/") || fnPkgPath(fn) == modPath+"/types"
+	})
 	// "outside their domain (wrong kind ...) they return an error": the kind test is the binder's assignability test
 	r.include("C13.binder-", "C20.", "a builtin called with an argument of the wrong kind answers with the binder's type error: arguments reach the Go function exactly as given, nil as nil", checkC20, func(rule string) bool {
 		switch rule {
@@ -1209,6 +1213,7 @@ func checkC17(w *World, r *Report) {
 		r.check(okSpan, "C17.span", rl, "cursor of a collection", rl.Pos(), "first token's cursor closed at the token that matched the closer", "the collection's cursor does not span from its first to its last token")
 	}
 	macroSpanRule(w, r, "C17.macro-span")
+	rethrowLint(w, r, "C17.lisp-rethrow")
 	// the rows the scanner counts are the rows of the text the caller passed
 	textIntactRule(w, r, "C17.text-intact")
 	if rf := w.Fn("reader", "read_form"); rf != nil {
@@ -1323,27 +1328,7 @@ func checkC17(w *World, r *Report) {
 						continue
 					}
 					nsy++
-					okS := false
-					if ld, ok := u.(*ssa.UnOp); ok && ld.Op == token.MUL {
-						if al, ok := ld.X.(*ssa.Alloc); ok && al.Comment == "complit" {
-							for _, ref := range *al.Referrers() {
-								fa, ok := ref.(*ssa.FieldAddr)
-								if !ok || fieldName(fa.X.Type(), fa.Field) != "Cursor" {
-									continue
-								}
-								for _, u2 := range *fa.Referrers() {
-									if st, ok := u2.(*ssa.Store); ok && st.Addr == ssa.Value(fa) {
-										if cfa, ok := st.Val.(*ssa.FieldAddr); ok && fieldName(cfa.X.Type(), cfa.Field) == "Cursor" && isTokenStruct(cfa.X.Type()) {
-											okS = true
-										}
-										if c, ok := st.Val.(*ssa.Call); ok && c.Call.StaticCallee() != nil && c.Call.StaticCallee().Name() == "GetPosition" {
-											okS = true
-										}
-									}
-								}
-							}
-						}
-					}
+					okS := symbolBuiltForToken(w, u, 0)
 					r.check(okS, "C17.symbol-token", f, "Symbol returned by the reader", ret.Pos(), "a literal carrying the current token's cursor", "the symbol handed back was not built for this token ("+describeVal(e, u, 0)+"): it carries the position of another occurrence of the name, so 'symbol not found' is reported at the wrong place")
 				}
 			}
@@ -1482,6 +1467,7 @@ func checkC19(w *World, r *Report) {
 		return rule == "C11.package-state" || rule == "C11.globals"
 	})
 	// the forms Go code builds are the forms the reader would have built: made of storage of their own
+	lnotationTotalRule(w, r, "C19.lnotation-total")
 	r.rule("C19.lnotation-fresh", "the L-notation constructors write only into storage they allocated: a form built from a slice the Go caller keeps (or spreads into several forms) does not change under the caller's hands, nor one form through another (shared with C02.write)")
 	nlf := ruleContainerWrites(w, r, e, "C19.lnotation-fresh", func(fn *ssa.Function) bool { return fnPkgPath(fn) == modPath+"/lnotation" }, false)
 	r.add("C19.lnotation-fresh", nil, "container writes in package lnotation", token.NoPos, "ok", fmt.Sprintf("%d write sites examined", nlf))
@@ -1868,6 +1854,7 @@ func positionFreeResult(w *World, e *Engine, fn *ssa.Function, idx int, depth in
 func checkC20(w *World, r *Report) {
 	e := newEngine(w)
 	r.rule("C20.siblings", "the six adapter closures agree with the table: context parameter <=> _args_ctx with the adapter's own context (else _args); NumOut 0/1/2 <=> _nil_nil/_nil_error/_result_error; each starts with defer _recover on its own named error result")
+	r.rule("C20.verbatim", "each adapter closure of the binder returns exactly the two results of its result adapter (the bound function's value and error): nothing between the reflective call and the caller replaces a value by an error or an error by a value")
 	r.rule("C20.units", "bounds compared by the context-taking builder include the context parameter: when bounds are given explicitly (counts of lisp arguments) for a context-taking function, both of them are incremented (the maximum unless unlimited) before the adapters capture them")
 	r.rule("C20.checked-first", "in each argument builder the count check dominates the construction of the argument vector, so the function is invoked iff the count is in bounds")
 	r.rule("C20.results", "_nil_error returns the error result iff it is non-nil; _result_error returns the first result and the error iff non-nil; _nil_nil returns nil, nil")
@@ -2016,6 +2003,41 @@ func checkC20(w *World, r *Report) {
 				okRes, detail = false, "several result adapters in one closure"
 			}
 			r.check(okRes, "C20.siblings", ad, "result adapter", ad.Pos(), "the adapter for the function's number of results", "the result adapter does not match the number of results: "+detail)
+			// ... and what the result adapter made of the function's results is what the closure returns
+			for _, rt := range errorReturns(ad) {
+				ret := rt[0].(*ssa.Return)
+				if ret.Block() == ad.Recover {
+					continue
+				}
+				verbatim := true
+				var from *ssa.Call
+				for i, rv := range []interface{}{rt[1], rt[2]} {
+					v, _ := rv.(ssa.Value)
+					ex, ok := v.(*ssa.Extract)
+					if !ok || ex.Index != i {
+						verbatim = false
+						break
+					}
+					c, ok := ex.Tuple.(*ssa.Call)
+					if !ok || (from != nil && c != from) {
+						verbatim = false
+						break
+					}
+					from = c
+				}
+				if verbatim && from != nil {
+					isAdapter := false
+					if sc := from.Call.StaticCallee(); sc != nil {
+						for _, f := range adapterFor {
+							isAdapter = isAdapter || sc == f
+						}
+					} else if ld, ok := from.Call.Value.(*ssa.UnOp); ok && cellOf(ld.X) != nil {
+						isAdapter = true // the adapter selected through a captured variable (checked above)
+					}
+					verbatim = isAdapter
+				}
+				r.check(verbatim, "C20.verbatim", ad, "results handed back by the adapter closure", ret.Pos(), "the result adapter's results, as they are", "the closure does not return what the result adapter made of the function's results ("+describeVal(e, rt[1].(ssa.Value), 0)+", "+describeVal(e, rt[2].(ssa.Value), 0)+"): a builtin that succeeded - a swap! that installed its value - can be reported as failed, or its value replaced")
+			}
 			h, isB := w.barrierOf(ad)
 			okRec := isB && h == recov
 			if okRec {
@@ -2137,6 +2159,120 @@ func checkC20(w *World, r *Report) {
 			}
 		}
 	}
+	// where the bounds come from: the declaration (the elements of the variadic bounds parameter), the
+	// signature (NumIn, as it is), the constants for "none" and "unlimited", the context adjustment above,
+	// or a bounds helper of the package - nothing else is assigned to them
+	updateAtomicRule(w, r, e, "C20.registry-atomic")
+	r.rule("C20.bounds-source", "the minimum and maximum the adapters capture are assigned only: an element of the declared bounds, the number of parameters of the signature as it is, a constant, the increment by one for the context (under its guard), or the result of a bounds helper of the package; no other arithmetic on them (a second adjustment counts the context twice and refuses calls within the declared bounds)")
+	nbs := 0
+	// isBoundsSlice: the declared bounds: the builder's variadic parameter, or the parameter of a helper that
+	// is handed it at every call site
+	isBoundsSlice := func(v ssa.Value) bool {
+		if v == variadic {
+			return true
+		}
+		if p, ok := v.(*ssa.Parameter); ok && p.Parent() != callFn {
+			args := w.callSiteArgs(p)
+			for _, a := range args {
+				if a != variadic {
+					return false
+				}
+			}
+			return len(args) > 0
+		}
+		return false
+	}
+	var srcOf func(v ssa.Value, depth int) string // "" when the value is an accepted source
+	srcOf = func(v ssa.Value, depth int) string {
+		if depth > 8 {
+			return "too deep to follow"
+		}
+		switch x := v.(type) {
+		case *ssa.Const:
+			nbs++
+			return ""
+		case *ssa.UnOp:
+			if x.Op == token.MUL {
+				if ia, ok := x.X.(*ssa.IndexAddr); ok && isBoundsSlice(ia.X) {
+					nbs++
+					return ""
+				}
+				// a variable of a bounds helper (its named results): everything assigned to it
+				if al, ok := x.X.(*ssa.Alloc); ok {
+					for _, st := range e.storesTo(al) {
+						if bo, ok := isInc(st.Val); ok {
+							if ld, ok := bo.X.(*ssa.UnOp); ok && ld.X == ssa.Value(al) && guardOf(st.Parent(), st.Block()) == 3 {
+								nbs++
+								continue
+							}
+						}
+						if why := srcOf(st.Val, depth+1); why != "" {
+							return why
+						}
+					}
+					return ""
+				}
+			}
+		case *ssa.BinOp:
+			if bo, ok := isInc(x); ok && guardOf(x.Parent(), x.Block()) == 3 {
+				return srcOf(bo.X, depth+1)
+			}
+		case *ssa.Extract:
+			if hc, ok := x.Tuple.(*ssa.Call); ok {
+				h := hc.Call.StaticCallee()
+				if h != nil && h.Pkg == callFn.Pkg && h.Parent() == nil && len(h.Blocks) > 0 {
+					for _, hb := range h.Blocks {
+						if ret, ok := hb.Instrs[len(hb.Instrs)-1].(*ssa.Return); ok && x.Index < len(ret.Results) {
+							if why := srcOf(ret.Results[x.Index], depth+1); why != "" {
+								return why
+							}
+						}
+					}
+					return ""
+				}
+			}
+		case *ssa.Call:
+			if x.Call.IsInvoke() && x.Call.Method.Name() == "NumIn" {
+				nbs++
+				return ""
+			}
+			if sc := x.Call.StaticCallee(); sc != nil && sc.Name() == "NumIn" {
+				nbs++
+				return ""
+			}
+		case *ssa.Phi:
+			for _, ed := range x.Edges {
+				if why := srcOf(ed, depth+1); why != "" {
+					return why
+				}
+			}
+			return ""
+		case *ssa.Convert:
+			return srcOf(x.X, depth+1)
+		}
+		return describeVal(e, v, 0)
+	}
+	for _, b := range callFn.Blocks {
+		for _, in := range b.Instrs {
+			st, ok := in.(*ssa.Store)
+			if !ok {
+				continue
+			}
+			al, ok := st.Addr.(*ssa.Alloc)
+			if !ok || (boundRole(callFn, al, argsCtx) == 0 && boundRole(callFn, al, args) == 0) {
+				continue
+			}
+			why := srcOf(st.Val, 0)
+			if bo, ok := isInc(st.Val); ok {
+				if ld, ok := bo.X.(*ssa.UnOp); ok && ld.X == ssa.Value(al) && guardOf(callFn, b) == 3 {
+					why = ""
+					nbs++
+				}
+			}
+			r.check(why == "", "C20.bounds-source", callFn, "value assigned to a bound: "+nz(w.srcExpr(st), describeVal(e, st.Val, 0)), st.Pos(), "declared bound, signature count, constant, or the context increment under its guard", "a bound is assigned "+why+", which is neither what was declared nor what the signature says: calls whose argument count lies within the declared bounds are refused (or calls outside them reach the function)")
+		}
+	}
+	r.floor("C20.bounds-source", "sources of the bounds", nbs, 4)
 	// the context builder compares against bounds - 1
 	minus := 0
 	for _, b := range argsCtx.Blocks {
@@ -2749,6 +2885,42 @@ func checkC20(w *World, r *Report) {
 			}
 		}
 		r.floor("C20.name", "bindings of registered functions", nb+1, 2)
+		// the registry files the function under its package: that key is derived from the function's runtime
+		// name in one way, whether or not the function is registered under an explicit name
+		r.rule("C20.package-key", "the key under which the registry (_PACKAGES_) files a registered function is assigned independently of the override name: no assignment to it is made under a test of the override parameter (functions registered with and without an explicit name land under the same package)")
+		npk := 0
+		for _, cl := range allAnon(callFn) {
+			for _, b := range cl.Blocks {
+				for _, in := range b.Instrs {
+					mu, ok := in.(*ssa.MapUpdate)
+					if !ok {
+						continue
+					}
+					if _, name, ok := w.namedStruct(unboxed(mu.Value).Type()); !ok || name != "Set" {
+						continue
+					}
+					ld, ok := mu.Key.(*ssa.UnOp)
+					if !ok {
+						continue
+					}
+					cell := cellOf(ld.X)
+					if cell == nil {
+						continue
+					}
+					for _, st := range e.storesTo(cell) {
+						npk++
+						dep := ""
+						for _, a := range knownConds(st.Block()) {
+							if bo, ok := a.v.(*ssa.BinOp); ok && (isOverrideParam(bo.X, 0) || isOverrideParam(bo.Y, 0)) {
+								dep = describeVal(e, bo, 0)
+							}
+						}
+						r.check(dep == "", "C20.package-key", st.Parent(), "assignment to the registry's package key", st.Pos(), "made whatever the override name is", "the package key is assigned under the condition "+dep+": a function registered under an explicit name is filed under a different package than the same function registered by its own name")
+					}
+				}
+			}
+		}
+		r.floor("C20.package-key", "assignments to the registry's package key", npk, 1)
 	}
 	aud2 := newAudit(w, e, r, "C20.name")
 	aud2.exempt = exemptionsC20
@@ -3269,7 +3441,53 @@ func positionBlindRule(w *World, r *Report, rule string) {
 			}
 		}
 	}
+	// ... nor as part of a whole value: Go compares structs field by field and hashes map keys the same way,
+	// so a position-carrying struct (Symbol) used as a map key or compared with == is compared by position
+	for _, fn := range w.Funcs {
+		p := fnPkgPath(fn)
+		if isTestFunc(w, fn) || !runtimePkg(p) || strings.HasSuffix(p, "/lisperror") || strings.HasSuffix(p, "/reader") || strings.HasSuffix(p, "/printer") {
+			continue
+		}
+		for _, b := range fn.Blocks {
+			for _, in := range b.Instrs {
+				switch x := in.(type) {
+				case *ssa.BinOp:
+					if (x.Op == token.EQL || x.Op == token.NEQ) && carriesPosition(x.X.Type(), 0) {
+						n++
+						r.bad(rule, fn, "Go equality on "+shortType(x.X.Type())+" values", x.Pos(), "two values of a struct type that holds a source position are compared with ==: the position pointers are compared too, so names read from text (each occurrence has its own position) never compare equal while the same names built without positions do")
+					}
+				case *ssa.MakeMap:
+					if mt, ok := x.Type().Underlying().(*types.Map); ok && carriesPosition(mt.Key(), 0) {
+						n++
+						r.bad(rule, fn, "map keyed by "+shortType(mt.Key()), x.Pos(), "the key type holds a source position, which takes part in hashing and equality of the keys: two occurrences of a name read from text are different keys, the same name built without positions is one key - the program behaves differently depending on how it was delivered")
+					}
+				}
+			}
+		}
+	}
 	r.floor(rule, "reads of a Cursor field in the runtime packages", n, 3)
+}
+
+// carriesPosition: a struct type (not behind a pointer or interface) with a field that is a *Position, or a
+// field whose struct type has one.
+func carriesPosition(t types.Type, depth int) bool {
+	st, ok := t.Underlying().(*types.Struct)
+	if !ok || depth > 3 {
+		return false
+	}
+	for i := 0; i < st.NumFields(); i++ {
+		ft := st.Field(i).Type()
+		if pt, ok := ft.Underlying().(*types.Pointer); ok {
+			if n, ok := pt.Elem().(*types.Named); ok && n.Obj().Name() == "Position" && n.Obj().Pkg() != nil && strings.HasSuffix(n.Obj().Pkg().Path(), "/types") {
+				return true
+			}
+			continue
+		}
+		if carriesPosition(ft, depth+1) {
+			return true
+		}
+	}
+	return false
 }
 
 // slurpVerbatimRule: load-file evaluates what slurp returns; for the file route to mean the same as the text
@@ -4673,4 +4891,183 @@ func builtinRepositionRule(w *World, r *Report, e *Engine, rule string) {
 		}
 	}
 	r.floor(rule, "error returns of builtin calls in the application region", n, 1)
+}
+
+// symbolBuiltForToken: v is a Symbol literal whose Cursor is the position of a token (its Cursor field or
+// GetPosition()), or the result of a helper of the module all of whose returns are such literals.
+func symbolBuiltForToken(w *World, v ssa.Value, depth int) bool {
+	v = unboxed(v)
+	if c, ok := v.(*ssa.Call); ok && depth < 3 {
+		callee := c.Call.StaticCallee()
+		if callee == nil || !inModule(callee) || len(callee.Blocks) == 0 || callee.Signature.Results().Len() != 1 {
+			return false
+		}
+		n := 0
+		for _, b := range callee.Blocks {
+			if ret, ok := b.Instrs[len(b.Instrs)-1].(*ssa.Return); ok {
+				if !symbolBuiltForToken(w, resolveRet(ret.Results[0]), depth+1) {
+					return false
+				}
+				n++
+			}
+		}
+		return n > 0
+	}
+	ld, ok := v.(*ssa.UnOp)
+	if !ok || ld.Op != token.MUL {
+		return false
+	}
+	al, ok := ld.X.(*ssa.Alloc)
+	if !ok || al.Comment != "complit" {
+		return false
+	}
+	for _, ref := range *al.Referrers() {
+		fa, ok := ref.(*ssa.FieldAddr)
+		if !ok || fieldName(fa.X.Type(), fa.Field) != "Cursor" {
+			continue
+		}
+		for _, u2 := range *fa.Referrers() {
+			if st, ok := u2.(*ssa.Store); ok && st.Addr == ssa.Value(fa) {
+				if cfa, ok := st.Val.(*ssa.FieldAddr); ok && fieldName(cfa.X.Type(), cfa.Field) == "Cursor" && isTokenStruct(cfa.X.Type()) {
+					return true
+				}
+				if c, ok := st.Val.(*ssa.Call); ok && c.Call.StaticCallee() != nil && c.Call.StaticCallee().Name() == "GetPosition" {
+					return true
+				}
+			}
+		}
+	}
+	return false
+}
+
+// countArithRule: a count the program supplies can be any integer, the most negative one included. Where a
+// collection builtin subtracts such a count from a length, the count is known not to be negative at that
+// point (a clamp, or an error for negative counts, comes first): len - n with n near the smallest integer
+// wraps round to a negative start, the clamp that follows turns that into 0, and the whole sequence is
+// returned where nothing should be.
+func countArithRule(w *World, r *Report, e *Engine, rule string) {
+	r.rule(rule, "in the collection builtins and the functions they are built from, an integer that comes from the program (an int parameter, or an argument asserted to be an int) is subtracted from a length only where it is proven non-negative: the difference cannot wrap round, so extreme counts behave like any other out-of-range count")
+	fromProgram := func(v ssa.Value) bool {
+		seen := map[ssa.Value]bool{}
+		var walk func(v ssa.Value, depth int) bool
+		walk = func(v ssa.Value, depth int) bool {
+			if seen[v] || depth > 8 {
+				return false
+			}
+			seen[v] = true
+			switch x := v.(type) {
+			case *ssa.Parameter:
+				return isIntType(x.Type())
+			case *ssa.TypeAssert:
+				return isIntType(x.AssertedType)
+			case *ssa.Extract:
+				if ta, ok := x.Tuple.(*ssa.TypeAssert); ok && x.Index == 0 {
+					return isIntType(ta.AssertedType)
+				}
+			case *ssa.Convert:
+				return walk(x.X, depth+1)
+			case *ssa.Phi:
+				for _, ed := range x.Edges {
+					if walk(ed, depth+1) {
+						return true
+					}
+				}
+			}
+			return false
+		}
+		return walk(v, 0)
+	}
+	seenF := map[*ssa.Function]bool{}
+	n := 0
+	for _, root := range w.registeredFuncs() {
+		if !strings.HasPrefix(fnPkgPath(root), modPath+"/lib/core") {
+			continue
+		}
+		for _, fn := range w.withPkgHelpers(root) {
+			if seenF[fn] {
+				continue
+			}
+			seenF[fn] = true
+			for _, b := range fn.Blocks {
+				for _, in := range b.Instrs {
+					bo, ok := in.(*ssa.BinOp)
+					if !ok || bo.Op != token.SUB || !isIntType(bo.Type()) {
+						continue
+					}
+					if t, _, ok := e.linOf(bo.X); !ok || t.Kind != 1 {
+						continue // not a length
+					}
+					if !fromProgram(bo.Y) {
+						continue
+					}
+					n++
+					okLo, why := e.proveGE0(bo.Y, b)
+					r.check(okLo, rule, fn, "count subtracted from a length: "+nz(w.srcExpr(bo), describeVal(e, bo, 0)), bo.Pos(), "the count is known to be >= 0 here", "a count supplied by the program is subtracted from a length without being known non-negative ("+why+"): for counts near the smallest integer the difference wraps round, and the builtin returns the whole sequence (or a wrong part of it) instead of what an out-of-range count gives")
+				}
+			}
+		}
+	}
+	r.floor(rule, "program-supplied counts subtracted from lengths", n, 2)
+}
+
+// lnotationTotalRule: the L-notation constructors build the form the reader would build from the
+// corresponding text, element for element. In each loop of the package that runs over an argument, every
+// lap puts something into the result (a map update, an append, an element store): no path round the loop
+// skips the element, so no entry - one whose value is nil, say - is left out of the form.
+func lnotationTotalRule(w *World, r *Report, rule string) {
+	r.rule(rule, "in every loop of package lnotation each iteration stores into the collection being built (map update, append or element store) on every path back to the loop header: the constructed form has every element and entry of the Go value it was built from, as the reader keeps every element of the text")
+	n := 0
+	for _, fn := range w.Funcs {
+		if isTestFunc(w, fn) || fnPkgPath(fn) != modPath+"/lnotation" || len(fn.Blocks) == 0 {
+			continue
+		}
+		for _, l := range naturalLoops(fn) {
+			blocks := loopBlocks(l)
+			stores := func(b *ssa.BasicBlock) bool {
+				for _, in := range b.Instrs {
+					switch x := in.(type) {
+					case *ssa.MapUpdate:
+						return true
+					case *ssa.Store:
+						if _, ok := x.Addr.(*ssa.IndexAddr); ok {
+							return true
+						}
+					case *ssa.Call:
+						if bi, ok := x.Call.Value.(*ssa.Builtin); ok && bi.Name() == "append" {
+							return true
+						}
+					}
+				}
+				return false
+			}
+			n++
+			// a path from the header round to the header through blocks that store nothing
+			skip := false
+			seen := map[*ssa.BasicBlock]bool{}
+			var stack []*ssa.BasicBlock
+			for _, s := range l.header.Succs {
+				if blocks[s] {
+					stack = append(stack, s)
+				}
+			}
+			if stores(l.header) {
+				stack = nil
+			}
+			for len(stack) > 0 {
+				b := stack[len(stack)-1]
+				stack = stack[:len(stack)-1]
+				if b == l.header {
+					skip = true
+					break
+				}
+				if seen[b] || !blocks[b] || stores(b) {
+					continue
+				}
+				seen[b] = true
+				stack = append(stack, b.Succs...)
+			}
+			r.check(!skip, rule, fn, "loop over the argument", instrPos(l.header.Instrs[len(l.header.Instrs)-1]), "every lap stores into the result", "an iteration can go round without storing anything into the collection being built: the element or entry it looked at is missing from the form (the reader keeps it), so the same program built from Go has a different AST")
+		}
+	}
+	r.floor(rule, "loops of package lnotation", n, 3)
 }
